@@ -110,6 +110,18 @@ class Ctx:
 
     # ------------------------------------------------------------------ scratch + sources
     def prepare(self):
+        # a sandbox run as root can lose its /dev/null (a tool renaming a file onto it): put the device back, the
+        # code generators (yuck, m4 through shell wrappers) misbehave without it
+        try:
+            import stat
+            st = os.stat("/dev/null")
+            if not stat.S_ISCHR(st.st_mode):
+                os.unlink("/dev/null")
+                os.mknod("/dev/null", 0o666 | stat.S_IFCHR, os.makedev(1, 3))
+                os.chmod("/dev/null", 0o666)
+                self.notes.append("/dev/null was not a character device and has been restored")
+        except OSError:
+            pass
         base = os.environ.get("TMPDIR", "/tmp")
         self.scratch = tempfile.mkdtemp(prefix="echse-verif-%s-" % self.prop, dir=base)
         self.src = os.path.join(self.scratch, "src")
